@@ -145,3 +145,41 @@ Proof.
   - rewrite Hroot. reflexivity.
   - rewrite Hroot. reflexivity.
 Qed.
+
+(* ---------- the signature message: one line per failure and per container node ---------- *)
+Lemma list_sum_cons x l : list_sum (x :: l) = x + list_sum l.
+Proof. reflexivity. Qed.
+
+Lemma flat_map_length_sum {A B} (f : A -> list B) (l : list A) :
+  length (flat_map f l) = list_sum (map (fun x => length (f x)) l).
+Proof. induction l as [|x l IH]; [reflexivity|]. cbn [flat_map map]. rewrite list_sum_cons, app_length, IH. reflexivity. Qed.
+
+Lemma list_sum_add {A} (f g : A -> nat) (l : list A) :
+  list_sum (map (fun x => f x + g x) l) = list_sum (map f l) + list_sum (map g l).
+Proof. induction l as [|x l IH]; [reflexivity|]. cbn [map]. rewrite !list_sum_cons, IH. lia. Qed.
+
+Lemma list_sum_ext {A} (f g : A -> nat) (l : list A) :
+  (forall x, In x l -> f x = g x) -> list_sum (map f l) = list_sum (map g l).
+Proof.
+  induction l as [|x l IH]; intros H; [reflexivity|]. cbn [map]. rewrite !list_sum_cons.
+  rewrite (H x (or_introl eq_refl)), IH; [reflexivity|]. intros y Hy. apply H. right. exact Hy.
+Qed.
+
+Theorem msg_levels_count : forall i l, length (msg_levels l i) = failures i + headers i.
+Proof.
+  fix IH 1. intros [e v w] l. cbn [msg_levels failures headers].
+  destruct e; cbn [msg_levels_err failures_err headers_err length]; try reflexivity.
+  - (* ContainerErr *) apply IH.
+  - (* KeyErrs *) rewrite flat_map_length_sum, <- plus_n_Sm. f_equal. rewrite <- list_sum_add.
+    induction ks as [|[k c] ks IHl]; [reflexivity|]. cbn [map snd]. rewrite !list_sum_cons, (IH c (S l)), IHl. reflexivity.
+  - (* MapErr *) rewrite flat_map_length_sum, <- plus_n_Sm. f_equal. rewrite <- list_sum_add.
+    induction ks as [|[k [a b]] ks IHl]; [reflexivity|]. cbn [map fst snd]. rewrite !list_sum_cons, app_length, IHl.
+    destruct a as [a|], b as [b|]; cbn [length]; rewrite ?(IH a (S l)), ?(IH b (S l)); lia.
+  - (* IndexErrs *) rewrite flat_map_length_sum, <- plus_n_Sm. f_equal. rewrite <- list_sum_add.
+    induction ix as [|[k c] ix IHl]; [reflexivity|]. cbn [map snd]. rewrite !list_sum_cons, (IH c (S l)), IHl. reflexivity.
+  - (* SetErrs *) rewrite flat_map_length_sum, <- plus_n_Sm. f_equal. rewrite <- list_sum_add.
+    induction items as [|c xs IHl]; [reflexivity|]. cbn [map]. rewrite !list_sum_cons, (IH c (S l)), IHl. reflexivity.
+  - (* UnionErrs *) rewrite flat_map_length_sum, <- plus_n_Sm. f_equal. rewrite <- list_sum_add.
+    induction variants as [|c xs IHl]; [reflexivity|]. cbn [map]. rewrite !list_sum_cons, (IH c (S l)), IHl. reflexivity.
+  - (* PredicateErrs *) rewrite map_length. lia.
+Qed.
